@@ -27,7 +27,8 @@ CONSTANTS
     Ops,            \* subset of {"build_stream", "build_buf", "compact", "rebuild", "create"}
     Strategy,       \* "temp" (as coded) | mutants: "direct" (File::create(dest)), "copy" (persist by copy+remove),
                     \* "placeholder" (empty dest filled in place), "rm_on_err" (rebuild removes the target when the build
-                    \* fails), "probe" (create() first does File::create(dest) to see whether it is writable)
+                    \* fails), "probe" (create() first does File::create(dest) to see whether it is writable),
+                    \* "keep_inode" (compact of a hard-linked archive copies the temp over dest instead of renaming)
     SkipUnreadable, \* TRUE = compact() skips a source file whose read fails (the code before 131a1c3 for I/O errors;
                     \*        still the code for non-I/O read errors: Err(_) => continue) -- refuted
     StrictErr,      \* TRUE = demand Err => dest = Prev for compact too (refuted by the code: ErrAfterCommit)
@@ -36,7 +37,8 @@ CONSTANTS
 
 Dest == "D"
 \* pre-states of the destination explored by the model (build accepts any; compact needs an archive)
-PrevKinds == {"absent", "present", "empty", "garbage", "readonly", "dir"}
+\* "hardlink" = the archive has a second hard link elsewhere (nlink = 2); "symlink" = dest is a symbolic link to a file
+PrevKinds == {"absent", "present", "empty", "garbage", "readonly", "dir", "hardlink", "symlink"}
 
 VARIABLES
     vobj,      \* Seq of file objects [w: Nat, old: BOOLEAN, hurt: BOOLEAN]
@@ -209,6 +211,7 @@ IsBuild == vop \in {"build_stream", "build_buf", "rebuild", "create"}
 \* mutant strategy "placeholder": a destination that exists as an empty regular file is written in place
 InPlace == Strategy = "placeholder" /\ IsBuild /\ vprev = "empty"
 NoTemp  == Strategy = "direct" \/ InPlace
+KeepInode == Strategy = "keep_inode" /\ vprev = "hardlink"
 \* where build() writes: its own temp; inside compact the builder's destination is compact's temp T1
 BTmp == IF vop = "compact" THEN "T2" ELSE "T1"
 BTgt == IF vop = "compact" THEN "T1" ELSE Dest
@@ -373,9 +376,23 @@ C_DropOld ==
 \* fs::rename(&temp_path, &self._path)?
 C_Rename ==
     /\ vpc = "c_rename"
+    /\ ~KeepInode
     /\ \/ /\ FsRename("T1", Dest) /\ NoFault /\ Goto("c_verify")
        \/ /\ CanFail /\ FsFail("rename") /\ Faulted /\ Goto("c_cleanup")
     /\ UNCHANGED <<vop, vdone, vneed, vread>>
+\* mutant "keep_inode": nlink > 1 => open dest write+truncate and copy the compacted temp over it
+C_KeepOpen ==
+    /\ vpc = "c_rename" /\ KeepInode
+    /\ \/ /\ FsOpen(Dest, 7, TRUE) /\ NoFault /\ Goto("c_keepcopy") /\ vdone' = 0
+       \/ /\ CanFail /\ FsFail("open") /\ Faulted /\ Goto("c_cleanup") /\ UNCHANGED vdone
+    /\ UNCHANGED <<vop, vneed, vread>>
+C_KeepCopy ==
+    /\ vpc = "c_keepcopy"
+    /\ IF vdone < vneed
+         THEN \/ /\ FsWrite(7, 1) /\ NoFault /\ vdone' = vdone + 1 /\ Goto("c_keepcopy")
+              \/ /\ CanFail /\ FsFail("write") /\ Faulted /\ Goto("c_cleanup") /\ UNCHANGED vdone
+         ELSE /\ FsClose(7) /\ NoFault /\ Goto("c_verify") /\ UNCHANGED vdone
+    /\ UNCHANGED <<vop, vneed, vread>>
 \* Archive::open(&self._path)? ; OpenOptions::new().read(true).write(true).open(&self._path)?
 \* -- both after the commit point: a failure here returns Err with the new archive in place
 C_Verify ==
@@ -406,7 +423,7 @@ Die == Crash /\ Goto("dead") /\ UNCHANGED <<vop, vdone, vneed, vnfault, vread>>
 
 Init ==
     /\ vop \in Ops
-    /\ \E prev \in PrevKinds : (vop = "compact" => prev \in {"present", "readonly"}) /\ FsInit(prev, NW)
+    /\ \E prev \in PrevKinds : (vop = "compact" => prev \in {"present", "readonly", "hardlink", "symlink"}) /\ FsInit(prev, NW)
     /\ vpc = CASE vop = "compact" -> "c_begin"
                [] vop = "rebuild" -> "r_read"
                [] vop = "create" /\ Strategy = "probe" -> "x_probe"
@@ -417,7 +434,7 @@ Next ==
     \/ B_OpenTmp \/ B_Seek \/ B_Write \/ B_Abort \/ B_Flush \/ B_Rename \/ B_CopyOpen \/ B_Copy \/ B_CopyRm
     \/ B_Cleanup \/ B_Close \/ B_Return
     \/ R_Read \/ R_StartBuild \/ X_Probe \/ X_ProbeClose \/ X_Reopen \/ X_Return
-    \/ C_Begin \/ C_Flush \/ C_OpenTmp \/ C_Read \/ C_StartBuild \/ C_Reopen \/ C_DropOld \/ C_Rename \/ C_Verify \/ C_OpenRw
+    \/ C_Begin \/ C_Flush \/ C_OpenTmp \/ C_Read \/ C_StartBuild \/ C_Reopen \/ C_DropOld \/ C_Rename \/ C_KeepOpen \/ C_KeepCopy \/ C_Verify \/ C_OpenRw
     \/ C_Cleanup \/ C_Return
     \/ Die
 
